@@ -215,6 +215,69 @@ pub fn run(a: &Args) {
         );
     }
 
+    // (d) concurrent swaps are exchanges: every id put into the cell is handed back to exactly one
+    // caller or is the one left in the cell (nothing lost, nothing handed out twice); and of several
+    // callers swapping the same new id into a cell holding NEVER exactly one gets NEVER back
+    let mut swap_bad: Vec<String> = vec![];
+    let swap_rounds = if a.thorough() { 400 } else { 40 };
+    for round in 0..swap_rounds {
+        let threads = 3 + (round % 3) as usize;
+        let per = 2000usize;
+        let cell = Arc::new(AtomicReloadId::with_value(reload_id_from(0)));
+        let barrier = Arc::new(Barrier::new(threads));
+        let handles: Vec<_> = (0..threads)
+            .map(|k| {
+                let cell = cell.clone();
+                let barrier = barrier.clone();
+                std::thread::spawn(move || {
+                    barrier.wait();
+                    (0..per).map(|j| reload_id_raw(cell.swap(reload_id_from(1 + k * per + j)))).collect::<Vec<usize>>()
+                })
+            })
+            .collect();
+        let mut seen = vec![0u32; threads * per + 1];
+        for h in handles {
+            for x in h.join().unwrap() {
+                if x < seen.len() {
+                    seen[x] += 1;
+                }
+            }
+        }
+        let fin = reload_id_raw(cell.load());
+        if fin < seen.len() {
+            seen[fin] += 1;
+        }
+        let lost = seen.iter().filter(|c| **c == 0).count();
+        let twice = seen.iter().filter(|c| **c > 1).count();
+        if (lost > 0 || twice > 0) && swap_bad.len() < 3 {
+            swap_bad.push(format!("{threads} threads x {per} swaps of distinct ids: {lost} ids were never handed back, {twice} were handed out more than once"));
+        }
+        // one growth, one winner
+        let cell = Arc::new(AtomicReloadId::with_value(reload_id_from(0)));
+        let barrier = Arc::new(Barrier::new(threads));
+        let handles: Vec<_> = (0..threads)
+            .map(|_| {
+                let cell = cell.clone();
+                let barrier = barrier.clone();
+                std::thread::spawn(move || {
+                    barrier.wait();
+                    reload_id_raw(cell.swap(reload_id_from(7)))
+                })
+            })
+            .collect();
+        let zeros = handles.into_iter().map(|h| h.join().unwrap()).filter(|x| *x == 0).count();
+        if zeros != 1 && swap_bad.len() < 3 {
+            swap_bad.push(format!("{threads} threads swap id 7 into a cell holding NEVER: {zeros} of them got NEVER back"));
+        }
+    }
+    if !swap_bad.is_empty() {
+        let f: String = swap_bad
+            .iter()
+            .map(|v| format!("{{\"engine\": \"ridiff\", \"kind\": \"monitor\", \"class\": \"swap-not-atomic\", \"case\": {{\"observed\": {}}}}}\n", jstr(v)))
+            .collect();
+        std::fs::write(format!("{}/ridiff.violations.jsonl", a.out), f).unwrap();
+    }
+
     cases.write(
         &a.out,
         "ridiff",
